@@ -991,6 +991,11 @@ class PGPMessage(Armorable, PGPObject):
         # and tabs of every line are not part of the signed text (RFC 4880, section 7.1)
         if self.type == 'cleartext' and isinstance(self.message, str):
             return re.sub(r'[ \t]+(?=\r?\n)|[ \t]+\Z', '', self.message)
+
+        if self.type == 'literal':
+            # the octets of the literal data packet, not a re-encoding of the decoded text
+            return bytes(self._message._contents)
+
         return self.message
 
     def __str__(self):
